@@ -544,6 +544,119 @@ fn main() {
             let same = vt.view() == re.view() && vt.cursor() == re.cursor();
             println!("KF3 {} orig_cursor={:?} restored_cursor={:?}", if same { "passes" } else { "fails" }, vt.cursor(), re.cursor());
         }
+
+        "stress" => {
+            // model-free totality stress (C01): huge counts with wrapping on, big screens, long inputs,
+            // every public call; a per-call wall-clock watchdog stands in for "no hang"
+            let seed: u64 = arg(&args, "--seed").map_or(1, |s| s.parse().unwrap());
+            let cases: usize = arg(&args, "--cases").map_or(100, |s| s.parse().unwrap());
+            let first: usize = arg(&args, "--first").map_or(0, |s| s.parse().unwrap());
+            let prof = profile("general");
+            let mut w = out;
+            for i in first..first + cases {
+                let mut rng = Rng::new(seed.wrapping_mul(1_000_003).wrapping_add(i as u64) ^ 0x5757);
+                let (cols, rows) = *rng.pick(&[(1usize, 1usize), (1, 3), (3, 1), (2, 2), (5, 3), (80, 24), (132, 50), (7, 40), (200, 2)]);
+                let limit = *rng.pick(&[None, Some(0usize), Some(1), Some(10), Some(1000)]);
+                let mut b = Vt::builder();
+                b.size(cols, rows);
+                if let Some(l) = limit {
+                    b.scrollback_limit(l);
+                }
+                let mut vt = b.build();
+                let mut ctx = Ctx { cols, rows };
+                let mut verdict = "ok".to_string();
+                let mut worst_ms: u128 = 0;
+                let mut last = String::new();
+                let n = rng.range(10, 60);
+                for _ in 0..n {
+                    let big = *rng.pick(&["65535", "65535", "9999", "70000", "4294967296", "32768", "1000"]);
+                    let s: String = match rng.below(12) {
+                        0 => format!("x\x1b[{}b", big),
+                        1 => format!("\x1b[{}@", big),
+                        2 => format!("\x1b[{}L", big),
+                        3 => format!("\x1b[{}M", big),
+                        4 => format!("\x1b[{}S", big),
+                        5 => format!("\x1b[{}T", big),
+                        6 => format!("\x1b[{}P\x1b[{}X", big, big),
+                        7 => format!("\x1b[{};{}H\x1b[{}A\x1b[{}B\x1b[{}C\x1b[{}D", big, big, big, big, big, big),
+                        8 => format!("\x1b[{}I\x1b[{}Z\x1b[{}E\x1b[{}F", big, big, big, big),
+                        9 => {
+                            let k = rng.weighted(&prof.weights);
+                            token(&mut rng, &ctx, k)
+                        }
+                        10 => (0..rng.range(1, 400)).map(|_| printable(&mut rng)).collect(),
+                        _ => format!("\x1b[{};{}r\x1b[?6h\x1b[{}d", rng.range(1, rows), big, big),
+                    };
+                    last = s.clone();
+                    let t0 = std::time::Instant::now();
+                    let r = catch_unwind(AssertUnwindSafe(|| {
+                        match rng.below(10) {
+                            0 => {
+                                let c = rng.range(1, 150);
+                                let r = rng.range(1, 60);
+                                {
+                                    let ch = vt.resize(c, r);
+                                    let _n = ch.scrollback.count();
+                                }
+                                (c, r)
+                            }
+                            1 => {
+                                for ch in s.chars() {
+                                    vt.feed(ch);
+                                }
+                                vt.size()
+                            }
+                            _ => {
+                                {
+                                    let ch = vt.feed_str(&s);
+                                    let _n = ch.scrollback.count();
+                                }
+                                vt.size()
+                            }
+                        }
+                    }));
+                    let ms = t0.elapsed().as_millis();
+                    worst_ms = worst_ms.max(ms);
+                    match r {
+                        Ok((c, r)) => {
+                            ctx.cols = c;
+                            ctx.rows = r;
+                        }
+                        Err(_) => {
+                            verdict = "panic".into();
+                            break;
+                        }
+                    }
+                    if ms > 3000 {
+                        verdict = "slow".into();
+                        break;
+                    }
+                    let q = catch_unwind(AssertUnwindSafe(|| {
+                        let _ = vt.dump();
+                        let _ = vt.text();
+                        let _ = vt.cursor();
+                        for l in vt.view() {
+                            let _ = l.chunks(|a, b| a.pen() != b.pen()).count();
+                        }
+                        for r in 0..vt.size().1 {
+                            let _ = vt.line(r);
+                        }
+                    }));
+                    if q.is_err() {
+                        verdict = "panic".into();
+                        break;
+                    }
+                }
+                let mut l = format!("XSTRESS {} {} {} {} {} {} ", i, verdict, worst_ms, cols, rows, limit.map_or(-1, |l| l as i64));
+                write!(l, "{}", last.chars().count()).unwrap();
+                for c in last.chars() {
+                    write!(l, " {}", c as u32).unwrap();
+                }
+                writeln!(w, "{}", l).unwrap();
+            }
+            w.flush().unwrap();
+            eprintln!("harness: mode=stress seed={} cases={}", seed, cases);
+        }
         "sweep" => {
             // exhaustive parser sweep: 14 states x every Unicode scalar value x backgrounds.
             // For each (background, state): feed CAN + intro, then one character c; record
